@@ -33,20 +33,21 @@ type Ent struct {
 
 // Case is one run of the code under test.
 type Case struct {
-	Label     string
-	Mode      string  // "B" Build, "W" Writer.AppendTar, "L" Writer.AppendTarLossLess
-	Calls     [][]Ent // one tar per AppendTar call (Build: exactly one)
-	Format    tar.Format
-	Chunk     int
-	MinChunk  int
-	Level     int
-	Workers   int
-	Prio      []string
-	InComp    string // "", "gzip", "zstd": compression of the input handed to the code
-	NeedsOpen bool   // Writer modes: register the landmark names in needsOpenGzEntries
-	Reuse     bool   // the input is an eStargz blob built from Calls[0] beforehand
-	Trailing  int    // bytes of garbage after the end-of-archive marker of each input tar
-	Finding   bool   // belongs to the separate findings pass (known finding unpack-empty-layer)
+	Label      string
+	Mode       string  // "B" Build, "W" Writer.AppendTar, "L" Writer.AppendTarLossLess
+	Calls      [][]Ent // one tar per AppendTar call (Build: exactly one)
+	Format     tar.Format
+	Chunk      int
+	MinChunk   int
+	Level      int
+	Workers    int
+	Prio       []string
+	InComp     string // "", "gzip", "zstd": compression of the input handed to the code
+	NeedsOpen  bool   // Writer modes: register the landmark names in needsOpenGzEntries
+	Reuse      bool   // the input is an eStargz blob built from Calls[0] beforehand
+	Trailing   int    // bytes of garbage after the end-of-archive marker of each input tar
+	Finding    bool   // belongs to the separate findings pass (known finding unpack-empty-layer)
+	FindingSig string // findings pass: the signature extraction failures of this case are reported under
 }
 
 func (c *Case) EffChunk() int {
@@ -220,7 +221,7 @@ func Scenarios(t *Target) []Case {
 		{Name: "run/fifo", Type: tar.TypeFifo, Mode: 0o600},
 		reg("empty", nil),
 		reg(strings.Repeat("long/", 24)+"name", pat(33, 3)),
-		reg("usr/bin/sh", pat(900, 4)), // duplicate: the last one wins
+		reg("usr/bin/x", pat(900, 4)), // duplicate (of an entry that is nobody's hardlink target): the last one wins
 		{Name: "epoch", Type: tar.TypeReg, Content: pat(10, 5), Mode: 0o600, ModTime: 0},
 	}
 	for _, f := range []tar.Format{tar.FormatPAX, tar.FormatGNU, tar.FormatUnknown} {
@@ -283,6 +284,26 @@ func Scenarios(t *Target) []Case {
 		Calls: [][]Ent{{reg("a", pat(30, 1)), reg("empty", nil), reg("b", pat(10, 2)), reg("empty2", nil)}}})
 	add(Case{Label: "verifytoc-minchunk-empty-file-build", Mode: "B", MinChunk: 100000, Chunk: 100, Workers: 3,
 		Calls: [][]Ent{{reg("empty0", nil), reg("a", pat(30, 1)), reg("empty", nil)}}, Prio: []string{"a"}})
+	// duplicates whose LAST occurrence depends on an entry between the occurrences: extraction in tar
+	// order must still work (the duplicate has to move to its last position)
+	dep := []Ent{reg("lib", pat(40, 1)), dir("usr/"), reg("usr/lib.real", pat(300, 2)), hard("lib", "usr/lib.real"), reg("z", pat(5, 3))}
+	dep2 := []Ent{reg("a/f", pat(10, 1)), sym("s", "a/f"), reg("t", pat(20, 2)), {Name: "a/", Type: tar.TypeDir, Mode: 0o700}, reg("a/f", pat(30, 3)),
+		reg("s", pat(7, 4)), sym("t", "s"), reg("u", pat(9, 5)), dir("u/"), reg("u/in", pat(11, 6))}
+	dep3 := []Ent{dir("d/"), reg("d/x", pat(50, 1)), reg("k", pat(3, 2)), sym("d", "k")}
+	for w := 1; w <= 3; w++ {
+		add(Case{Label: "dup-hardlink-to-later-target", Mode: "B", Calls: [][]Ent{dep}, Chunk: 100, Workers: w})
+		add(Case{Label: "dup-type-changes", Mode: "B", Calls: [][]Ent{dep2}, Chunk: 16, Workers: w})
+	}
+	add(Case{Label: "dup-hardlink-to-later-target-prio", Mode: "B", Calls: [][]Ent{dep}, Chunk: 100, Workers: 2, Prio: []string{"z", "lib"}})
+	add(Case{Label: "dup-hardlink-to-later-target-minchunk", Mode: "B", Calls: [][]Ent{dep}, Chunk: 100, MinChunk: 4000, Workers: 2})
+	add(Case{Label: "dup-hardlink-to-later-target-writer", Mode: "W", Calls: [][]Ent{dep}, Chunk: 100})
+	add(Case{Label: "dup-dir-becomes-symlink", Mode: "B", Calls: [][]Ent{dep3}, Chunk: 100, Workers: 2})
+	// candidate finding: a hardlink whose target is redefined LATER in the input; "last duplicate wins"
+	// moves the target behind the link
+	redef := []Ent{reg("sh", pat(1500, 1)), hard("dash", "sh"), reg("sh", pat(900, 4))}
+	add(Case{Label: "finding-hardlink-target-redefined", Mode: "B", Finding: true, FindingSig: SigDedupLink, Calls: [][]Ent{redef}, Chunk: 512, Workers: 2})
+	add(Case{Label: "finding-hardlink-target-redefined-prio", Mode: "B", Finding: true, FindingSig: SigDedupLink, Calls: [][]Ent{redef}, Chunk: 512, Workers: 1,
+		Prio: []string{"dash"}})
 	// the separate findings pass: the known finding unpack-empty-layer
 	add(Case{Label: "finding-unpack-empty-writer", Mode: "W", Finding: true, Chunk: 100, Calls: [][]Ent{{}}})
 	add(Case{Label: "finding-unpack-no-calls", Mode: "W", Finding: true, Chunk: 100, Calls: [][]Ent{}})
@@ -316,6 +337,29 @@ func Generate(r *verifutil.Rand, t *Target, i int, findings bool) Case {
 	sizes := boundarySizes(ec)
 	var names []string // regular files so far (hardlink targets, prioritized candidates)
 	var dirs []string
+	var syms []string
+	linked := map[string]bool{} // names some hardlink points to: never redefined later (candidate finding)
+	dropName := func(n string) {
+		var keep []string
+		for _, x := range names {
+			if x != n {
+				keep = append(keep, x)
+			}
+		}
+		names = keep
+	}
+	freeDup := func() string { // an earlier regular file that may be redefined
+		var c []string
+		for _, x := range names {
+			if !linked[x] {
+				c = append(c, x)
+			}
+		}
+		if len(c) == 0 {
+			return ""
+		}
+		return c[r.Intn(len(c))]
+	}
 	n := 0
 	for k := 0; k < ncalls; k++ {
 		var ents []Ent
@@ -346,22 +390,37 @@ func Generate(r *verifutil.Rand, t *Target, i int, findings bool) Case {
 				if sz > 24000 {
 					sz = 24000 - r.Intn(100)
 				}
-				if len(names) > 0 && r.Intn(8) == 0 {
-					name = names[r.Intn(len(names))] // duplicate
+				if d := freeDup(); d != "" && r.Intn(8) == 0 {
+					name = d // duplicate
+				} else if len(syms) > 0 && r.Intn(10) == 0 {
+					name = syms[r.Intn(len(syms))] // a symlink becomes a file
 				}
 				e = reg(name, content(r, sz))
+				dropName(name)
 				names = append(names, name)
 			case 1:
 				e = dir(name + "/")
 				dirs = append(dirs, name+"/")
 			case 2:
+				if d := freeDup(); d != "" && r.Intn(6) == 0 {
+					name = d // a file becomes a symlink
+					dropName(d)
+				}
 				e = sym(name, "../"+fmt.Sprint(r.Intn(50)))
+				syms = append(syms, name)
 			case 3:
 				if len(names) == 0 {
 					e = reg(name, content(r, r.Intn(ec+2)))
 					names = append(names, name)
 				} else {
-					e = hard(name, names[r.Intn(len(names))])
+					tgt := names[r.Intn(len(names))]
+					if d := freeDup(); d != "" && d != tgt && r.Intn(3) == 0 {
+						// the duplicate of an earlier file is a hardlink to a target defined in between
+						name = d
+						dropName(d)
+					}
+					e = hard(name, tgt)
+					linked[tgt] = true
 				}
 			case 4:
 				e = Ent{Name: name, Type: []byte{tar.TypeChar, tar.TypeBlock}[r.Intn(2)], Mode: 0o660, Major: int64(r.Intn(300)), Minor: int64(r.Intn(300))}
